@@ -384,6 +384,31 @@ def menu_case(name):
                 ok = np.all(np.isfinite(a)) and np.max(np.linalg.norm(a - got, axis=1)) <= 1e-6 * sc
                 res.append((f"{f}-{nm}", None if ok else f"differs from the sum of three sectors: {a[0].tolist()} vs {got[0].tolist()}"))
         return res
+    if name.startswith("sectors:cutplane-vicinity"):
+        # observers off the body, 1e-15 ... 1e-11 rad next to the half planes in which the sectors are cut (which are a full turn or
+        # half a turn away from section limits such as 360, -360, +-180): the sum of the sectors still is the whole cylinder.
+        # Rows where a part is not finite are C15's subject and left out.
+        conv = name.split(":")[2]
+        bounds = {"quarters": [0, 90, 180, 270, 360], "neg-quarters": [-360, -270, -180, -90, 0], "halves": [-180, 0, 180],
+                  "shifted": [90, 180, 270, 360, 450]}[conv]
+        segs = [magpy.magnet.CylinderSegment(dimension=(0, 0.6, 1.1, bounds[i], bounds[i + 1]), polarization=pol) for i in range(len(bounds) - 1)]
+        pts = []
+        for cut in sorted({b % 360 for b in bounds}):
+            for d in (1e-15, 3e-15, 1e-14, 1e-13, 3e-13, 1e-12, 1e-11):
+                for sgn in (1, -1):
+                    ph = np.deg2rad(cut) + sgn * d
+                    for r_, z_ in ((0.9, 0.2), (1.7, -0.3), (0.3, 0.9), (0.45, -1.4), (0.6, 0.8)):
+                        pts.append((r_ * np.cos(ph), r_ * np.sin(ph), z_))
+        pts = np.array(pts)
+        res = []
+        for f in "BH":
+            parts = np.array([np.asarray(getattr(s_, "get" + f)(pts)) for s_ in segs])
+            whole = np.asarray(getattr(cyl, "get" + f)(pts))
+            fin = np.isfinite(parts).all(axis=(0, 2)) & np.isfinite(whole).all(axis=1)
+            err = np.linalg.norm(parts.sum(axis=0)[fin] - whole[fin], axis=1) / np.max(np.linalg.norm(whole[fin], axis=1))
+            nbad = int(np.sum(~(err <= 1e-6)))
+            res.append((f, None if nbad == 0 and fin.sum() > 0.5 * len(pts) else f"{nbad} of {int(fin.sum())} finite rows differ (max rel {np.max(err) if len(err) else float('nan'):.3g}); {len(pts) - int(fin.sum())} rows not finite"))
+        return res
     if name.startswith("sectors"):
         conv = name.split(":")[1]
         bounds = {"pos": [0, 70, 200, 360], "neg": [-360, -290, -160, 0], "mixed": [-270, -200, -90, 90],
@@ -419,7 +444,8 @@ MENU = ["repaired-mesh", "small-body:um", "small-body:mm", "cuboid=mesh", "cuboi
         "from_triangles", "from_mesh", "mesh-with-path", "two-boxes=disconnected-mesh:plain", "two-boxes=disconnected-mesh:flipB0",
         "two-boxes=disconnected-mesh:flipA-all", "two-boxes=disconnected-mesh:flipB-all", "two-boxes=disconnected-mesh:interleaved-flips", "cylinder=segment(0,360)", "cylinder=segment(-180,180)",
         "cylinder=segment(90,450)", "cylinder=segment(-360,0)", "cylinder=segment(-500,-140)", "hollow=difference", "sectors:pos",
-        "sectors:neg", "sectors:mixed", "sectors:far-neg", "sectors:far-pos", "sectors:straddle", "sectors:on-hull-extension", "sphere=dipole(outside)", "ngon->circle", "ngon->circle:um"]
+        "sectors:neg", "sectors:mixed", "sectors:far-neg", "sectors:far-pos", "sectors:straddle", "sectors:on-hull-extension", "sectors:cutplane-vicinity:quarters", "sectors:cutplane-vicinity:neg-quarters", "sectors:cutplane-vicinity:halves",
+        "sectors:cutplane-vicinity:shifted", "sphere=dipole(outside)", "ngon->circle", "ngon->circle:um"]
 
 
 def work(task):
